@@ -466,8 +466,13 @@ _SYM = {ast.In: 'in', ast.Is: 'is', ast.Eq: '==', ast.Lt: '<', ast.LtE: '<='}
 
 def literal(e, truth=True):
     """Canonical (atom text, polarity) of a non-boolean-operator expression."""
-    while isinstance(e, ast.UnaryOp) and isinstance(e.op, ast.Not):
-        e, truth = e.operand, not truth
+    while True:
+        if isinstance(e, ast.UnaryOp) and isinstance(e.op, ast.Not):
+            e, truth = e.operand, not truth
+        elif isinstance(e, ast.Call) and isinstance(e.func, ast.Name) and e.func.id == 'bool' and len(e.args) == 1 and not e.keywords:
+            e = e.args[0]          # bool(x) has the truth value of x
+        else:
+            break
     if isinstance(e, ast.Compare) and len(e.ops) == 1:
         op = type(e.ops[0])
         l, r = e.left, e.comparators[0]
